@@ -608,11 +608,15 @@ impl<'a, T: IteTable<'a, BddPtr<'a>> + Default> Session<'a, T> {
         };
         let scale = 8f64.powi(nv as i32);
         if !is_eu {
-            // probabilities k/8: lo+hi = 1 off the query variables, anything in [0,1] on them
+            // probabilities k/8: lo+hi = 1 off the query variables, anything in [0,1] on them.
+            // "tiny" runs put the query weights on the scale 1/512 (k <= 2), so that every candidate value is far
+            // below any absolute epsilon a pruning test might use; each variable then has its own exponent
+            let tiny = rng.chance(1, 3) && !q.is_empty();
+            let wexps: Vec<u32> = (0..nv).map(|i| if tiny && q.contains(&i) { 3 } else { 1 }).collect();
             let ws: Vec<(i64, i64)> = (0..nv)
                 .map(|i| {
                     if q.contains(&i) {
-                        (rng.below(9) as i64, rng.below(9) as i64)
+                        if tiny { (rng.below(3) as i64, rng.below(3) as i64) } else { (rng.below(9) as i64, rng.below(9) as i64) }
                     } else {
                         let lo = rng.below(9) as i64;
                         (lo, 8 - lo)
@@ -620,9 +624,12 @@ impl<'a, T: IteTable<'a, BddPtr<'a>> + Default> Session<'a, T> {
                 })
                 .collect();
             ev["w"] = json!(ws.iter().map(|(l, h)| vec![vec![*l], vec![*h]]).collect::<Vec<_>>());
-            let p = WmcParams::<RealSemiring>::new(HashMap::from_iter(ws.iter().enumerate().map(
-                |(i, (l, h))| (vl(i), (RealSemiring(*l as f64 / 8.0), RealSemiring(*h as f64 / 8.0))),
-            )));
+            ev["wexps"] = json!(wexps);
+            let scale = 8f64.powi(wexps.iter().sum::<u32>() as i32);
+            let p = WmcParams::<RealSemiring>::new(HashMap::from_iter(ws.iter().enumerate().map(|(i, (l, h))| {
+                let d = 8f64.powi(wexps[i] as i32);
+                (vl(i), (RealSemiring(*l as f64 / d), RealSemiring(*h as f64 / d)))
+            })));
             let r = if op == "mmap" {
                 guarded(|| x.marginal_map(&qv, nv, &p))
             } else {
